@@ -1264,12 +1264,16 @@ def c10_impl(im, mo=""):
     return kv.get("kind", "-") + ":" + c09_canon(re.sub(r"Raw\(([0-9a-f]*|-)\)", lambda m: "Bytes(%s)" % m.group(1), iv) if False else iv)
 
 
+def check_C02(run, replay=None):
+    return check_C10(run, replay)
+
+
 def check_C10(run, replay=None):
     proof_ok = run.proof_side()
     cases, impl, model, meta = run.run_vh(["-cases", replay] if replay else None)
     heads = {}
     for c in cases:
-        if c[:2] in ("D ", "J ", "W "):
+        if c[:2] in ("D ", "J ", "W ", "Y "):
             heads.setdefault(c.split(" ", 2)[1], []).append(c)
     olines = [c for c in cases if c.startswith("O ")]
 
@@ -1277,6 +1281,7 @@ def check_C10(run, replay=None):
         return heads.get(cases[i].split(" ", 2)[1], []) + olines
     nbad = fam_report_bad_packages(run, meta)
     keep = [i for i, c in enumerate(cases) if c[:2] in ("V ", "X ") and not impl[i].startswith("SKIP")]
+    ilines = [i for i, c in enumerate(cases) if c[:2] == "I " and not impl[i].startswith("SKIP")]
     kc, ki, km = [], [], []
     wire_bad = []
     n_wire = 0
@@ -1310,8 +1315,19 @@ def check_C10(run, replay=None):
         kc.append(c)
         ki.append(impl[i])
         km.append("model=%s spec=%s" % (canon(mv), canon(sv)))
-    compare(run, kc, ki, km, get_impl=lambda im, mo: (lambda x: "Err" if x == "Err" else x.split(":", 1)[0] + ":" + c09_canon(x.split(":", 1)[1]))(c10_impl(im)),
-            context=lambda j: ctx(keep[j]), nontrivial=lambda c, iv: iv != "Err")
+    if run.prop == "C02":
+        # which declared types satisfy the operation's response interface: reflection over the compiled package
+        # vs the model's implementers vs the documented set computed by the corpus generator
+        ic = [cases[i] for i in ilines]
+        ii = [impl[i] for i in ilines]
+        imo = []
+        for i in ilines:
+            m = re.search(r"#exp=(\S+)", cases[i])
+            imo.append("%s spec=%s" % (model[i], m.group(1) if m else "-"))
+        compare(run, ic, ii, imo, context=lambda j: ctx(ilines[j]))
+    else:
+        compare(run, kc, ki, km, get_impl=lambda im, mo: (lambda x: "Err" if x == "Err" else x.split(":", 1)[0] + ":" + c09_canon(x.split(":", 1)[1]))(c10_impl(im)),
+                context=lambda j: ctx(keep[j]), nontrivial=lambda c, iv: iv != "Err")
     for (i, wi, wm) in wire_bad[:3]:
         run.violation({"property": run.prop, "case": cases[i], "context": ctx(i), "observed_wire": repr(wi), "expected_wire": repr(wm),
                        "broken": "the response on the wire (status, headers, body) differs from the documented one (model of Write = spec of C02_write_documented)"}, cases[i])
@@ -1338,7 +1354,7 @@ def check_C10(run, replay=None):
     return run.finish()
 
 
-CHECKS = {"C10": check_C10, "C09": check_C09, "C12": check_C12, "C15": check_C15, "C19": check_C19, "C13": check_C13, "C03": check_C03, "C04": check_C04, "C05": check_C05, "C06": check_C06, "C07": check_C07, "C08": check_C08, "C11": check_C11, "C16": check_C16, "C17": check_C17}
+CHECKS = {"C02": check_C02, "C10": check_C10, "C09": check_C09, "C12": check_C12, "C15": check_C15, "C19": check_C19, "C13": check_C13, "C03": check_C03, "C04": check_C04, "C05": check_C05, "C06": check_C06, "C07": check_C07, "C08": check_C08, "C11": check_C11, "C16": check_C16, "C17": check_C17}
 
 
 def setup():
